@@ -973,6 +973,36 @@ package adaptation
 //@   ensures [error]    result.2 != nil ==> result.0 == pods && result.1 == ctrs
 //@   ensures [passthru] err == nil ==> true
 
+//@ template syncTail(L, C, G)
+//@   ensures [$L.tail]  result.1 == nil && $G ==> ncalls($C) > old(ncalls($C))
+//@                   && (let last = callarg($C, ncalls($C) - 1, 2) in !last.More
+//@                        && base(last.Pods) == base(pods) && off(last.Pods) + len(last.Pods) == off(pods) + len(pods)
+//@                        && base(last.Containers) == base(containers) && off(last.Containers) + len(last.Containers) == off(containers) + len(containers))
+//@                   && callret($C, ncalls($C) - 1, 1) == nil && result.0 == callret($C, ncalls($C) - 1, 0).Update
+//@   ensures [$L.deadline] $G ==> forall k int :: old(ncalls($C)) <= k && k < ncalls($C) ==> hasdeadline(callarg($C, k, 1))
+//@   loop 1 invariant $G ==> forall k int :: old(ncalls($C)) <= k && k < ncalls($C) ==> hasdeadline(callarg($C, k, 1))
+//@ end
+
+//@ func plugin.synchronize
+//@   props C09
+//@   flag slice-within-len
+//@   requires p != nil && p.impl != nil && !held(p.Mutex) && cfgLockFree()
+//@   requires p.impl.wasmImpl == nil ==> p.impl.ttrpcImpl != nil && p.mux != nil && p.rpcc != nil && p.rpcs != nil && p.rpcl != nil
+//@   modifies p.closed, lock(p.Mutex), lock(global("adaptation.timeoutCfgLock")), calls("api.Plugin.Synchronize"), calls("api.PluginService.Synchronize")
+//@   modifies calls("multiplex.Mux.Close"), calls("(*github.com/containerd/ttrpc.Client).Close"), calls("(*github.com/containerd/ttrpc.Server).Close"), calls("net.Listener.Close")
+//@   modifies calls("google.golang.org/grpc/status.Code"), calls("errors.As"), calls("(*github.com/containerd/ttrpc.OversizedMessageErr).MaximumLength"), calls("(*github.com/containerd/ttrpc.OversizedMessageErr).RejectedLength")
+//@   ensures [closed] result.1 != nil ==> p.closed && result.0 == nil
+//@ apply syncTail(ttrpc, "api.PluginService.Synchronize", p.impl.wasmImpl == nil)
+//@ apply syncTail(wasm, "api.Plugin.Synchronize", p.impl.wasmImpl != nil)
+//@   loop 1 invariant base(podsToSend) == base(pods) && off(podsToSend) >= off(pods) && off(podsToSend) + len(podsToSend) == off(pods) + len(pods) && cap(podsToSend) >= len(podsToSend)
+//@   loop 1 invariant base(ctrsToSend) == base(containers) && off(ctrsToSend) >= off(containers) && off(ctrsToSend) + len(ctrsToSend) == off(containers) + len(containers) && cap(ctrsToSend) >= len(ctrsToSend)
+//@   loop 1 invariant 0 <= podsPerMsg && podsPerMsg <= len(podsToSend) && 0 <= ctrsPerMsg && ctrsPerMsg <= len(ctrsToSend)
+//@   loop 1 invariant (len(podsToSend) > 0 ==> podsPerMsg > 0) && (len(ctrsToSend) > 0 ==> ctrsPerMsg > 0)
+//@   loop 1 invariant !held(p.Mutex) && cfgLockFree() && p.impl == old(p.impl)
+//@   loop 1 invariant ncalls("api.PluginService.Synchronize") >= old(ncalls("api.PluginService.Synchronize")) && ncalls("api.Plugin.Synchronize") >= old(ncalls("api.Plugin.Synchronize"))
+//@   loop 1 decreases len(podsToSend) + len(ctrsToSend)
+//@   loop 1 decreases podsPerMsg + ctrsPerMsg
+
 // ---- lifecycle event wrappers: set the event kind, then dispatch (generated by gen_dispatch.py) ----
 //@ func Adaptation.RunPodSandbox
 //@   props C06
